@@ -8,6 +8,10 @@ META_EXCLUDE.add('node_call_id')
 META_EXCLUDE.add('node_sock')
 META_EXCLUDE.add('node_without_result')
 META_EXCLUDE.add('success_channels')
+# set by the dispatcher while an event is being handled: never taken from a peer
+META_EXCLUDE.add('cause')
+META_EXCLUDE.add('effects')
+META_EXCLUDE.add('complete_channels')
 
 
 def load_event(s):
